@@ -23,7 +23,7 @@ RULE = ('cases: seeded declaration histories: 0-5 parameters declared through th
         'KeyError and leave build() unchanged. Non-trivial history: product of >=2 factors of length >=2 with a repeated value or a '
         'string/scalar factor, plus >=1 rejected op; distinct by (declaration signature, op trace). Products capped at 2000 in the histories; a scale regime builds products of 4 097-10 000 combinations and declarations of 1 100-2 100 parameters.')
 ASSUMPTIONS = ['collections are re-iterable (no one-shot iterators)', 'values compare with == (no NaN)']
-FLOORS = {'quick': {'same_object_again_factors': 448, 'cases_in_mode_debuglog': 251, 'lists_replaced_by_a_copy_of_themselves': 137, 'builds_interrupted_by_a_failing_collection': 287, 'edited_collections_declared_again': 380, 'bag_factors': 215, 'builds_compared': 10000, 'empty_factor_products': 500, 'no_parameter_products': 100, 'string_factors': 800,
+FLOORS = {'quick': {'operations_after_which_nobody_built': 2038, 'same_object_again_factors': 448, 'cases_in_mode_debuglog': 251, 'lists_replaced_by_a_copy_of_themselves': 137, 'builds_interrupted_by_a_failing_collection': 287, 'edited_collections_declared_again': 380, 'bag_factors': 215, 'builds_compared': 10000, 'empty_factor_products': 500, 'no_parameter_products': 100, 'string_factors': 800,
                     'scalar_factors': 800, 'repeated_value_factors': 600, 'numpy_factors': 600, 'range_factors': 600,
                     'rejected_nonstr_name': 1000, 'rejected_duplicate': 760, 'rejected_unknown_removal': 1000,
                     'sibling_list_checks': 500, 'big_builds': 6, 'declarations_with_1000_plus_parameters': 3, 'constructor_declarations': 709, 'rejected_constructor': 100, 'reach:Batching.ParameterList.build': 10000},
